@@ -51,15 +51,15 @@ def run(ctx):
         base = ctx.tlc("Mpt", cfg="Mpt_quick.cfg")
     else:
         base = ctx.tlc("Mpt", cfg="Mpt.cfg", coverage=True, timeout=1500)
-    require_actions(base, ["Update", "Del", "Get", "HashOnly", "Commit", "Reopen", "SetLimit"])
+    require_actions(base, ["Update", "Del", "Get", "HashOnly", "Commit", "Reopen", "SetLimit", "Cap"])
     # 2. TLC-generated histories (model -> code)
     runs = []
     if quick:
-        universes = [([2, 3, 4, 6], [1, 7]), ([2, 3, 4, 5, 6], [1]), ([1, 5, 7, 8], [4, 6])]
-        deep = [([1, 2, 3, 4, 5, 6, 7, 8], [1, 2, 3, 4, 5, 6, 7, 8], 150, 30), ([2, 3, 4, 5, 6], [1, 2], 150, 30)]
+        universes = [([2, 3, 6], [1, 7]), ([2, 3, 4, 5, 6], [1]), ([1, 7, 8], [4, 6])]
+        deep = [([1, 2, 3, 4, 5, 6, 7, 8], [1, 2, 3, 4, 5, 6, 7, 8], 120, 30), ([2, 3, 4, 5, 6], [1, 2], 120, 30)]
     else:
-        universes = [([1, 2, 3, 4, 6], [1, 7]), ([2, 3, 4, 6], [2, 3, 4]), ([2, 3, 6, 7, 8], [5, 8]), ([2, 3, 4, 5, 6], [1, 2]),
-                     ([1, 5, 7, 8], [4, 6])]
+        universes = [([2, 3, 4, 6], [1, 7]), ([1, 5, 7, 8], [4, 6]), ([2, 3, 4, 5, 6], [1, 2]), ([2, 3, 4], [2, 3, 4]),
+                     ([3, 6, 7, 8], [5, 8])]
         deep = [([1, 2, 3, 4, 5, 6, 7, 8], [1, 2, 3, 4, 5, 6, 7, 8], 3000, 40),
                 ([2, 3, 4, 5], [3, 4, 5, 6], 1500, 40), ([2, 3, 4, 5, 6], [1, 2], 1500, 40)]
     hists, gens = [], []
@@ -95,7 +95,7 @@ def run(ctx):
     for tp in traces:
         for k, v in count_events(tp).items():
             kinds[k] = kinds.get(k, 0) + v
-    for k in ("Reset", "U", "D", "G", "H", "C", "R", "X", "L"):
+    for k in ("Reset", "U", "D", "G", "H", "C", "R", "X", "L", "P"):
         if not kinds.get(k):
             raise Inconclusive("no %s event was recorded: the check would be vacuous for it" % k)
     results = validate_parallel(ctx, "MptTrace", traces, timeout=1500 if quick else 6000)
@@ -123,7 +123,7 @@ def run(ctx):
         "exhaustive": True,
         "explanation": "Mpt.tla (Canon = Yellow-Paper trie; insert/delete/lookup of trie.go transcribed, any stored sub-tree "
                        "possibly present only as a hash reference) model-checked exhaustively; every (model state, call) edge over "
-                       "the listed key/value universes (model state = content x which sub-trees are hash references x cache limit x provenance of the resolved nodes: built / clean / reloaded from the NodeDatabase memory layer / reloaded from disk) and seeded TLC simulations replayed on the real trie.Trie; after every call "
+                       "the listed key/value universes (model state = content x which sub-trees are hash references x cache limit x provenance of the resolved nodes: built / clean / reloaded from the NodeDatabase memory layer / reloaded from disk x state of the NodeDatabase memory layer: empty / cached / partly or fully flushed by NodeDatabase.Cap; every version a history committed is re-opened on the same and on a fresh NodeDatabase after every call) and seeded TLC simulations replayed on the real trie.Trie; after every call "
                        "the full projection of a clone (TryGet of all 8 keys, Iterator pairs, NodeIterator nodes, in-memory graph, "
                        "stored graph decoded with own RLP, Hash, Commit, own-keccak digest of the stored graph, root of a fresh "
                        "sorted-insert trie) judged by MptTrace.tla against Canon(content).",
